@@ -41,6 +41,8 @@ static std::mutex g_mx;
 static std::vector<Deliv> g_deliv;
 static std::vector<std::string> g_logouts, g_admin;
 static int g_epoch = 0;
+static std::map<std::string, std::string> g_owner;	// side+number -> ClOrdID of the message that last took that number ("" for an admin message)
+static std::map<std::string, unsigned> g_number;	// ClOrdID -> number it was given
 
 struct SideRouter : UTEST::utest_Router {
 	char side;
@@ -90,6 +92,17 @@ public:
 		{ std::lock_guard<std::mutex> g(g_mx); g_admin.push_back(std::string(1, _router.side) + " got ResendReq [" + std::to_string(b()) + "," + std::to_string(e()) + "] (next send " + std::to_string((unsigned)_next_send_seq) + ")"); }
 		return Session::handle_resend_request(seqnum, msg);
 	}
+	void modify_outbound(Message *msg) override {
+		msg_seq_num sn; msg->Header()->get(sn);
+		if (!msg->Header()->have(Common_PossDupFlag)) {	// which message a number was given to (the last one, if a failed write freed the number again)
+			UTEST::ClOrdID id; const bool app = msg->get(id);
+			std::lock_guard<std::mutex> g(g_mx);
+			g_owner[std::string(1, _router.side) + std::to_string(sn())] = app ? id() : std::string();
+			if (app) g_number[id()] = sn();
+		}
+		if (!getenv("VERIF_C21_WIRE")) return;
+		std::lock_guard<std::mutex> g(g_mx); g_admin.push_back(std::string(1, _router.side) + " out " + msg->get_msgtype() + " #" + std::to_string(sn()) + (msg->Header()->have(Common_PossDupFlag) ? "d" : "") + " (next " + std::to_string((unsigned)_next_send_seq) + ")");
+	}
 	unsigned ns() const { return _next_send_seq; }
 	unsigned nr() const { return _next_receive_seq; }
 	Persister *persister() { return _persist; }
@@ -125,7 +138,7 @@ static void two_case(long long n, uint64_t seed, const std::string& dir)
 {
 	vh::Rng r(seed * 48271 + n);
 	R.case_mark(n);
-	{ std::lock_guard<std::mutex> g(g_mx); g_deliv.clear(); g_logouts.clear(); g_admin.clear(); g_epoch = 0; }
+	{ std::lock_guard<std::mutex> g(g_mx); g_deliv.clear(); g_logouts.clear(); g_admin.clear(); g_owner.clear(); g_number.clear(); g_epoch = 0; }
 	const ProcessModel pm = (n % 2) ? pm_thread : pm_pipeline;
 	const std::string base = dir + "/c21_" + std::to_string(n);
 	int lsn = socket(AF_INET, SOCK_STREAM, 0);
@@ -166,15 +179,29 @@ static void two_case(long long n, uint64_t seed, const std::string& dir)
 	};
 	// both continuous, numbers agree, nothing moving: the logical quiescent point (watchdog 20 s -> inconclusive)
 	auto settle = [&](const char *when) -> int {
-		unsigned last[4] = {0, 0, 0, 0}; int stable = 0;
-		for (int i = 0; i < 20000; ++i) {
+		unsigned last[4] = {0, 0, 0, 0}; int stable = 0, quiet = 0, nudges = 0;
+		unsigned nudge_mark[2] = {0, 0};
+		for (int i = 0; i < 60000; ++i) {
 			if (!I.ses || !A.ses) return 0;
 			const unsigned cur[4] = {I.ses->ns(), I.ses->nr(), A.ses->ns(), A.ses->nr()};
 			const bool agree = I.ses->st() == States::st_continuous && A.ses->st() == States::st_continuous && cur[0] == cur[3] && cur[2] == cur[1];
 			if (agree && !memcmp(cur, last, sizeof cur)) { if (++stable > 20) return 1; } else stable = 0;
 			// quiet but not in agreement: a message lost in flight shows only when the next one arrives; in production the heartbeat
 			// does that within HeartBtInt - here (timers stopped) both sides send one every 300 ms of disagreement
-			if (!agree && i % 300 == 299 && I.ses->st() == States::st_continuous && A.ses->st() == States::st_continuous) { /* never before the logon is complete */ try { I.ses->send(I.ses->generate_heartbeat("")); A.ses->send(A.ses->generate_heartbeat("")); } catch (...) {} }
+			quiet = memcmp(cur, last, sizeof cur) ? 0 : quiet + 1;
+			if (!agree && quiet >= 300 && States::is_established(I.ses->st()) && States::is_established(A.ses->st())) {	/* never before the logon is complete */
+				// the previous pair of heartbeats has been numbered by its senders (the machine is not just slow) and still no agreement:
+				// after 25 such exchanges this is no longer a matter of time - the sessions are stuck
+				if (nudges && (cur[0] == nudge_mark[0] || cur[2] == nudge_mark[1])) { quiet = 0; memcpy(last, cur, sizeof cur); std::this_thread::sleep_for(std::chrono::milliseconds(1)); continue; }
+				if (nudges >= 25) {
+					snprintf(d, sizeof d, "%s: no agreement after %d heartbeat exchanges that both sides numbered (initiator %s next %u/%u, acceptor %s next %u/%u); trace=%s", when, nudges,
+						Session::get_session_state_string(I.ses->st()).c_str(), cur[0], cur[1], Session::get_session_state_string(A.ses->st()).c_str(), cur[2], cur[3], trace.c_str());
+					return -2;
+				}
+				nudge_mark[0] = cur[0]; nudge_mark[1] = cur[2];
+				try { I.ses->send(I.ses->generate_heartbeat("")); A.ses->send(A.ses->generate_heartbeat("")); } catch (...) {}
+				++nudges; quiet = 0;
+			}
 			memcpy(last, cur, sizeof cur);
 			if (I.ses->is_shutdown() || A.ses->is_shutdown()) {
 				// give the terminating side a moment to finish, then report
@@ -186,27 +213,54 @@ static void two_case(long long n, uint64_t seed, const std::string& dir)
 			}
 			std::this_thread::sleep_for(std::chrono::milliseconds(1));
 		}
-		snprintf(d, sizeof d, "%s: not settled after 20 s (initiator %s %u/%u, acceptor %s %u/%u); trace=%s", when, Session::get_session_state_string(I.ses->st()).c_str(), I.ses->ns(), I.ses->nr(),
+		snprintf(d, sizeof d, "%s: not settled after 60 s (initiator %s %u/%u, acceptor %s %u/%u); trace=%s", when, Session::get_session_state_string(I.ses->st()).c_str(), I.ses->ns(), I.ses->nr(),
 			Session::get_session_state_string(A.ses->st()).c_str(), A.ses->ns(), A.ses->nr(), trace.c_str());
 		return 0;
 	};
 	// a send counts as sent when the library took responsibility for it: pm_thread - send() returned true (it is numbered, stored and
-	// written before send() returns); pm_pipeline - send() only queues, so the send is complete once the writer thread has numbered it
+	// written before send() returns); pm_pipeline - send() only queues, so the send is complete once the writer thread has given this
+	// message a number and the session's send number has moved past it (a message still queued when the session is destroyed was
+	// never the library's responsibility; watching only the send number is wrong while a Logon or a replay is being numbered too)
 	auto do_send = [&](Side& sd, const std::string& id) -> bool {
 		if (!sd.ses) return false;
 		const unsigned before = sd.ses->ns();
 		bool ok = false;
 		try { ok = sd.ses->send(mk_order(id)); } catch (...) { return false; }
 		if (!ok || pm != pm_pipeline) return ok;
-		for (int i = 0; i < 300; ++i) { if (sd.ses->ns() > before) return true; std::this_thread::sleep_for(std::chrono::milliseconds(1)); }
+		for (int i = 0; i < 300; ++i) {
+			{
+				std::lock_guard<std::mutex> g(g_mx);
+				auto it = g_number.find(id);
+				if (it != g_number.end() && sd.ses->ns() > it->second) {	// numbered, and the number has moved on (which happens after the message is stored)
+					auto ow = g_owner.find(std::string(1, sd.name) + std::to_string(it->second));
+					return ow != g_owner.end() && ow->second == id;
+				}
+			}
+			std::this_thread::sleep_for(std::chrono::milliseconds(1));
+		}
+		(void)before;
 		return false;
 	};
 	const std::string cls = pm == pm_thread ? "pm_thread" : "pm_pipeline";
+	auto admin_tail = [&](size_t maxlen) {
+		std::string adm; std::lock_guard<std::mutex> g(g_mx);
+		for (auto& x : g_admin) adm += x + "; ";
+		if (getenv("VERIF_C21_WIRE")) {	// diagnosis: everything, and the delivery log
+			adm += " deliveries: ";
+			for (auto& e : g_deliv) adm += std::string(1, e.side) + "<-" + e.id + "#" + std::to_string(e.seq) + (e.possdup ? "d" : "") + "@" + std::to_string(e.epoch) + " ";
+			for (Side *sd : {&I, &A}) if (sd->ses && sd->ses->persister()) for (unsigned q = 1; q < sd->ses->ns(); ++q) {
+				f8String m; if (!sd->ses->persister()->get(q, m)) continue;
+				try { delete Message::factory(UTEST::ctx(), m); }
+				catch (std::exception& e) { for (auto& c : m) if (c == 1) c = '|'; adm += std::string(" STORE ") + sd->name + "#" + std::to_string(q) + " undecodable (" + e.what() + "): " + m; }
+			}
+			return " admin-events: " + adm;
+		}
+		return " admin-events: " + adm.substr(adm.size() > maxlen ? adm.size() - maxlen : 0); };
 	int ident = 0, faults = 0;
 	if (!connect_both()) { R.viol("inconclusive:connect-failed", "initial connect"); goto out; }
 	{
 		int s = settle("after first logon");
-		if (s < 0) { R.viol("oracle:sessions-do-not-establish|" + cls, d); failed = true; goto out; }
+		if (s < 0) { R.viol(std::string(s == -2 ? "oracle:sessions-stuck-without-agreement|" : "oracle:sessions-do-not-establish|") + cls, d); failed = true; goto out; }
 		if (s == 0) { inconclusive = true; R.viol("inconclusive:settle-watchdog", d); goto out; }
 	}
 	for (int step = 0, steps = (int)r.range(3, 25); step < steps && !failed && !inconclusive; ++step) {
@@ -239,16 +293,27 @@ static void two_case(long long n, uint64_t seed, const std::string& dir)
 			I.destroy(); A.destroy();
 			trace += "]";
 			if (!connect_both()) { inconclusive = true; R.viol("inconclusive:connect-failed", trace); break; }
+			if (r.chance(40)) {
+				// go on sending while the recovery is still under way - but only once both logons are complete (an application that sends
+				// on an acceptor session before its logon would overwrite the recovered numbers: an application error)
+				bool up = false;
+				for (int i = 0; i < 20000 && !up; ++i) {
+					up = States::is_established(I.ses->st()) && States::is_established(A.ses->st()) && I.ses->st() != States::st_logon_received && A.ses->st() != States::st_logon_received;
+					if (I.ses->is_shutdown() || A.ses->is_shutdown()) break;
+					if (!up) std::this_thread::sleep_for(std::chrono::milliseconds(1));
+				}
+				if (up) { trace += "~"; continue; }
+			}
 			const int s = settle("after reconnect");
+			if (s == -2) { R.viol("oracle:sessions-stuck-without-agreement|" + cls, d + admin_tail(1500)); failed = true; break; }
 			if (s < 0) {
-				std::string adm; { std::lock_guard<std::mutex> g(g_mx); for (auto& x : g_admin) adm += x + "; "; }
-				R.viol("oracle:sessions-do-not-re-establish|" + cls, std::string(d) + " admin-events: " + adm.substr(adm.size() > 1200 ? adm.size() - 1200 : 0)); failed = true; break; }
+				R.viol("oracle:sessions-do-not-re-establish|" + cls, std::string(d) + admin_tail(1200)); failed = true; break; }
 			if (s == 0) { inconclusive = true; R.viol("inconclusive:settle-watchdog", d); break; }
 		}
 	}
 	if (!failed && !inconclusive) {
 		const int s = settle("at the end");
-		if (s < 0) { R.viol("oracle:session-terminated|" + cls, d); failed = true; }
+		if (s < 0) { R.viol(std::string(s == -2 ? "oracle:sessions-stuck-without-agreement|" : "oracle:session-terminated|") + cls, d + admin_tail(1500)); failed = true; }
 		else if (s == 0) { inconclusive = true; R.viol("inconclusive:settle-watchdog", d); }
 	}
 	if (!failed && !inconclusive) {
@@ -271,8 +336,7 @@ static void two_case(long long n, uint64_t seed, const std::string& dir)
 				if (snd.ses) for (unsigned q = 1; q < snd.ses->ns(); ++q) { f8String to_; if (snd.ses->persister()->get(q, to_) && to_.find("\00111=" + id + "\001") != f8String::npos) { stored_at = q; break; } }
 				snprintf(d, sizeof d, "%s (sent by %c, send() returned true) was never delivered to %c; %zu sent, %zu delivered; stored by the sender under number %ld, sender next send %u, receiver expects %u; faults=%d trace=%s", id.c_str(), from, to, want.size(), first_order.size(),
 					stored_at, snd.ses ? snd.ses->ns() : 0, rcv.ses ? rcv.ses->nr() : 0, faults, trace.c_str());
-				std::string adm; { std::lock_guard<std::mutex> g(g_mx); for (auto& x : g_admin) adm += x + "; "; }
-				R.viol("oracle:message-never-delivered|" + cls, std::string(d) + " admin-events: " + adm.substr(adm.size() > 1500 ? adm.size() - 1500 : 0)); failed = true; break;
+				R.viol("oracle:message-never-delivered|" + cls, std::string(d) + admin_tail(1500)); failed = true; break;
 			}
 			if (!failed) {
 				// first deliveries in send order (ids that were never reported as sent - send() returned false but the bytes went out - are skipped)
